@@ -48,4 +48,9 @@ theorem remove_listener_catches_keyerror_eq : Gen.Cache.remove_listener_catches_
 theorem purge_expire_now_eq (now : Int) : Gen.Cache.purge_expire_now now = now := rfl
 theorem purge_updates_now_eq (now : Int) : Gen.Cache.purge_updates_now now = now := rfl
 
+/-- D23 repair: `async_add_listener` purges the expired records before it adds the listener, with one reading of the clock -/
+theorem add_listener_purges_first_eq : Gen.Cache.add_listener_purges_first = true := rfl
+theorem add_listener_purge_expire_now_eq (now : Int) : Gen.Cache.add_listener_purge_expire_now now = now := rfl
+theorem add_listener_purge_updates_now_eq (now : Int) : Gen.Cache.add_listener_purge_updates_now now = now := rfl
+
 end Zc
